@@ -168,7 +168,7 @@ Print Assumptions C08_nonvacuous.
 Theorem C08_locked_le_schedule_locked :
   forall a t, lk_wf_b a = true -> 0 <= lk_df a + lk_dv a ->
     0 <= lk_locked_coins a t <= lk_sched_locked a t /\ lk_sched_locked a t = Z.max (lk_locked_up a t) (lk_unvested a t).
-Proof. exact (fun a t H Hd => conj (lk_locked_le_sched a t H Hd) (lk_sched_locked_eq_max a t)). Qed.
+Proof. exact lk_locked_le_sched_full. Qed.
 Print Assumptions C08_locked_le_schedule_locked.
 
 (** a successful conversion: only of a vesting account whose schedule has nothing unvested and nothing locked
@@ -211,7 +211,7 @@ Print Assumptions C08_balance_ge_locked_conversion_step.
 Theorem C08_balance_ge_locked_survives_conversion_all_histories_partial :
   forall ops s, lkx_wfs s -> lkx_inv s -> lkx_tracked s ->
     lkx_no_grant_after_slash false ops = true -> lkx_inv (lkx_run ops s) /\ lkx_wfs (lkx_run ops s).
-Proof. exact (fun ops s Hw Hi Ht Hn => conj (lkx_run_inv_partial ops s Hw Hi Ht Hn) (lkx_run_wfs ops s Hw)). Qed.
+Proof. exact lkx_run_inv_wfs_partial. Qed.
 Print Assumptions C08_balance_ge_locked_survives_conversion_all_histories_partial.
 
 (** what the invariant gives for a converted account: at every later block time the ORIGINAL obligation
